@@ -46,3 +46,41 @@ Definition doc_eqb (a b : doc) : bool :=
 Record case := mkCase { k_talign : Z ; k_lines : list string ; k_doc : doc }.
 Definition case_model (k : case) : bool := doc_eqb (to_model (k_talign k) (map text_of_string (k_lines k))) (k_doc k).
 Definition cases_model (ks : list case) : list bool := map case_model ks.
+
+(* ---- oracle 2: the reference screen S (Spec/Cea608Screen.v) against the implementation's document ---- *)
+From TT Require Import Spec.Cea608Screen.
+(* a judged case: the stream as parsed by the harness (one rate per stream), the raw lines, the configuration and
+   the implementation's document *)
+Record scase := mkSCase { s_df : bool ; s_lines : list sline ; s_case : case }.
+(* trigger of the finding "paragraph attached to a region that starts above it": some pushed paragraph lies in a
+   top-aligned region whose origin row is not the paragraph's own (flag 256) *)
+Definition tABOVE := 256.
+Definition region_above (c : ctx) : bool :=
+  existsb (fun o => existsb (fun r => (r_kind r =? fst (o_region o)) && (r_num r =? snd (o_region o)) && negb (r_after r) &&
+                                      negb (r_oy r =? pct_y (snd (o_origin o)))) (c_regions c)) (c_out c).
+Definition none_code := -1000000000.
+Definition optz (o : option Z) : Z := match o with Some f => f | None => none_code end.
+(* what the check needs of one case: the first frame rejected (none_code: accepted everywhere) by
+     - the property as stated (the standard, S_word, everything compared),
+     - the nine oracles with the recorded deviations admitted (granularity 0..2 x view 0..2),
+   then the trigger flags of the stream (Spec/Cea608Screen.v triggers) *)
+Definition case_spec (k : scase) : list Z :=
+  let d := k_doc (s_case k) in
+  let ls := s_lines k in
+  let seen := seen_rows (s_df k) d (frame_range ls) in
+  optz (oracle dev0 0 0 ls seen) ::
+  flat_map (fun g => map (fun vw => optz (oracle dev_all g vw ls seen)) [0; 1; 2]) [0; 1; 2] ++
+  [Z.lor (triggers ls) (if region_above (run_lines (k_talign (s_case k)) (map text_of_string (k_lines (s_case k)))) then tABOVE else 0)].
+(* the harness' parse of the file agrees with M's from_str (time code label, rate, words) *)
+Definition parsed_lines (ls : list string) : list (tcv * list Z) :=
+  flat_map (fun l => match from_str (text_of_string l) with LOk t ws => [(t, ws)] | _ => [] end) ls.
+Definition sline_eqb (a : tcv * list Z) (b : sline) : bool :=
+  let '((h, m, s, f), r) := fst a in
+  (h =? sl_h b) && (m =? sl_m b) && (s =? sl_s b) && (f =? sl_f b) &&
+  (if sl_df b then (rn r =? 30000) && (rd r =? 1001) else (rn r =? 30) && (rd r =? 1)) &&
+  list_eqb Z.eqb (snd a) (sl_words b) &&
+  (* S's frame count of the label (SMPTE counting) is the code's to_frames *)
+  (tc_frames (fst a) =? frame_of b).
+Fixpoint list_eqb2 {A B} (e : A -> B -> bool) (a : list A) (b : list B) : bool :=
+  match a, b with [], [] => true | x :: a', y :: b' => e x y && list_eqb2 e a' b' | _, _ => false end.
+Definition case_parse (k : scase) : bool := list_eqb2 sline_eqb (parsed_lines (k_lines (s_case k))) (s_lines k).
